@@ -382,6 +382,10 @@ class V(tuple):
     return "%s:%s" % (self[0], "/".join(self[1]))
 
 
+def _one_line(node):
+  return ast.unparse(node).replace("\n", "\\n")[:80]
+
+
 def import_table(body):
   tab = {}
   for st in body:
@@ -642,7 +646,7 @@ class Cmp:
     @functools.lru_cache(maxsize=None)
     def best(i, j):
       if j == m:
-        return tuple(V("STRUCT", ("removed", type(ins[k]).__name__), "statement removed: " + ast.unparse(ins[k])[:80])
+        return tuple(V("STRUCT", ("removed", type(ins[k]).__name__), "statement removed: " + _one_line(ins[k]))
                      for k in range(i, n)), ()
       o = outs[j]
       opts = []
@@ -655,7 +659,7 @@ class Cmp:
         opts.append(cat(iv, best(i, j + 1)))
       if not opts:
         kind = "changed" if (i < n and type(ins[i]) is type(o)) else "added"
-        v = V("STRUCT", (kind, type(o).__name__), "statement %s: %s" % (kind, ast.unparse(o)[:80]))
+        v = V("STRUCT", (kind, type(o).__name__), "statement %s: %s" % (kind, _one_line(o)))
         opts.append(cat(((v,), ()), best(i + (1 if kind == "changed" else 0), j + 1)))
       return min(opts, key=lambda t: len(t[0]))
     return best(0, 0)
@@ -1123,7 +1127,9 @@ def run(rep, tier, seed):
   t1 = time.time()
   # one violation per root-cause signature, on its minimised witness
   mins = [(sig, c[0], c[2], c[3], c[5]) for sig, c in sorted(best.items())]
-  for (sig, _, _, _, _), (case, msg, out) in vrun.pmap(_min_work, mins, seed=seed, chunksize=1):
+  done = sorted(((case["sig"], case, msg, out) for _, (case, msg, out) in
+                 vrun.pmap(_min_work, mins, seed=seed, chunksize=1)), key=lambda t: t[0])
+  for sig, case, msg, out in done:
     case["merged"] = out
     case["failing_pairs_in_this_run"] = tot.get("viol:" + sig, 0)
     rep.violation(_key(case), "[%s] %s | program %r stub %r" % (
